@@ -72,6 +72,18 @@ pub struct Plan {
     /// `read_eintr` of them fail with EINTR.
     pub read_chunk: u32,
     pub read_eintr: u32,
+    /// History fault, exec tier: before this launch the same command ran on the same file and was
+    /// killed at its `prior_crash`-th durable-state operation (a torn write to a regular file, a
+    /// file creation, rename, unlink, mkdir or fsync); only what it had made durable by then is
+    /// there for this launch. 0 = no such history.
+    pub prior_crash: u32,
+    /// Overlap fault, exec tier: while this launch runs, another launch of the same command on the
+    /// same file is in flight, stalled at its `overlap`-th durable-state operation (holding a lock
+    /// it took, or with half of a record written) for 400 ms of real time. 0 = none.
+    pub overlap: u32,
+    /// Transport only: the crash point of *this* launch (set on the unobserved earlier launch of a
+    /// `prior_crash` history, never on an observed one).
+    pub crash_at: u32,
 }
 
 pub const REF_WAIT_PPM: u32 = 1_000_000;
@@ -102,6 +114,9 @@ impl Plan {
             wait_ppm: REF_WAIT_PPM,
             read_chunk: 0,
             read_eintr: 0,
+            prior_crash: 0,
+            overlap: 0,
+            crash_at: 0,
         }
     }
 
@@ -145,6 +160,9 @@ impl Plan {
             "wait_ppm": self.wait_ppm,
             "read_chunk": self.read_chunk,
             "read_eintr": self.read_eintr,
+            "prior_crash": self.prior_crash,
+            "overlap": self.overlap,
+            "crash_at": self.crash_at,
         })
     }
 
@@ -177,6 +195,9 @@ impl Plan {
             wait_ppm: v.get("wait_ppm").and_then(Value::as_u64).unwrap_or(u64::from(REF_WAIT_PPM)) as u32,
             read_chunk: v.get("read_chunk").and_then(Value::as_u64).unwrap_or(0) as u32,
             read_eintr: v.get("read_eintr").and_then(Value::as_u64).unwrap_or(0) as u32,
+            prior_crash: v.get("prior_crash").and_then(Value::as_u64).unwrap_or(0) as u32,
+            overlap: v.get("overlap").and_then(Value::as_u64).unwrap_or(0) as u32,
+            crash_at: v.get("crash_at").and_then(Value::as_u64).unwrap_or(0) as u32,
         })
     }
 }
@@ -202,6 +223,8 @@ pub struct CallLog {
     /// Timed waits / sleeps the seam served, and reads of regular files it cut short or interrupted.
     pub waits: u64,
     pub short_reads: u64,
+    /// The launch was killed at its crash point.
+    pub crashed: bool,
 }
 
 impl CallLog {
@@ -222,6 +245,7 @@ impl CallLog {
         let mut stalls = 0;
         let mut waits = 0;
         let mut short_reads = 0;
+        let mut crashed = false;
         for line in text.lines() {
             if line.starts_with("S ") {
                 skewed = true;
@@ -247,6 +271,10 @@ impl CallLog {
                 short_reads += 1;
                 continue;
             }
+            if line.starts_with("K ") {
+                crashed = true;
+                continue;
+            }
             let mut it = line.split_whitespace();
             if let (Some(a), Some(b), Some(c)) = (it.next(), it.next(), it.next()) {
                 if let (Ok(a), Ok(b), Ok(c)) = (a.parse(), b.parse(), c.parse()) {
@@ -254,7 +282,7 @@ impl CallLog {
                 }
             }
         }
-        CallLog { calls, skewed, clock_reads, pid_reads, stalls, waits, short_reads }
+        CallLog { calls, skewed, clock_reads, pid_reads, stalls, waits, short_reads, crashed }
     }
 }
 
@@ -360,6 +388,7 @@ pub fn take_log() -> CallLog {
             stalls: 0,
             waits: 0,
             short_reads: std::mem::take(&mut s.short_reads),
+            crashed: false,
         }
     })
 }
